@@ -84,7 +84,7 @@ Qed.
 (* ---- one handler step ---- *)
 Definition same_flags (a b : sess) : Prop :=
   s_proto a = s_proto b /\ s_started a = s_started b /\ s_proved a = s_proved b /\ s_ready a = s_ready b /\
-  s_hmac a = s_hmac b /\ s_svcdone a = s_svcdone b.
+  s_hmac a = s_hmac b /\ s_devmod a = s_devmod b /\ s_svcdone a = s_svcdone b.
 
 Lemma same_flags_refl a : same_flags a a. Proof. repeat split. Qed.
 Lemma same_flags_kill a : same_flags (kill a) a. Proof. repeat split. Qed.
